@@ -25,7 +25,7 @@ type Identifier struct {
 // IdentifierFromString creates an identifier from a string
 func IdentifierFromString(id string) Identifier {
 	l := len(id)
-	if l > 0 && id[0] == '"' {
+	if l > 1 && id[0] == '"' && id[l-1] == '"' { // Only a properly quoted identifier; the string can come from a client
 		return Identifier{id: id[1 : l-1], ignoreCase: false}
 	} else {
 		return Identifier{id: id, ignoreCase: true}
